@@ -3,9 +3,9 @@ import fcntl, json, os, re, subprocess, sys, time, hashlib, random, shutil
 
 VERIF = os.path.dirname(os.path.dirname(os.path.abspath(__file__)))
 LEAN = os.path.join(VERIF, "lean")
-HARNESS = os.path.join(VERIF, "harness")
+HARNESS = os.environ.get("VERIF_HARNESS", os.path.join(VERIF, "harness"))
 WORK = os.path.join(VERIF, "work")
-REPO = "/repo"
+REPO = os.environ.get("VERIF_REPO", "/repo")   # seeded-change runs point this (and VERIF_HARNESS) at a scratch worktree
 NPROC = min(16, os.cpu_count() or 4)
 ALLOWED_AXIOMS = {"propext", "Classical.choice", "Quot.sound"}
 FORBIDDEN = re.compile(r"\bsorry\b|\badmit\b|^axiom\s|native_decide|bv_decide|implemented_by|\bunsafe\s|maxHeartbeats\s+0\b")
